@@ -337,10 +337,41 @@ func (vc *FuncVC) execBuiltin(st *State, reach Term, ins *ssa.Call, b *ssa.Built
 	}
 }
 
+// siteAsserts: the ghost assertions a contract places before a call site (assert before CALLEE#n: [label] FACT) are proved
+// there and then assumed. FACT sees the parameters (entry values), now(p), the source-level locals and the actual
+// arguments of the call as arg0, arg1, ... (scalars and strings).
+func (vc *FuncVC) siteAsserts(st *State, reach Term, ins *ssa.Call, site string) {
+	as := vc.fc.Asserts[site]
+	if len(as) == 0 {
+		return
+	}
+	vars := vc.localVars()
+	for i, a := range ins.Common().Args {
+		if _, ok := scalarSort(a.Type()); ok {
+			v := vc.val(a)
+			if v.Kind == vScalar || v.Kind == vLoc {
+				vars[fmt.Sprintf("arg%d", i)] = vc.toSVal(v, a.Type())
+			}
+		}
+	}
+	for i, a := range as {
+		env := vc.env(st, vars)
+		t := env.boolean(a.E)
+		label := a.Name
+		if label == "" {
+			label = fmt.Sprintf("%d", i+1)
+		}
+		vc.oblige("R", fmt.Sprintf("assert/%s/%s", site, label), reach, t, clauseTags(a, vc.propTags()), ins.Pos(), a.Src)
+		vc.assume(Implies(reach, t))
+		vc.assertsSeen[site] = true
+	}
+}
+
 // execLibrary handles calls to other packages that have no contract.
 func (vc *FuncVC) execLibrary(st *State, reach Term, ins *ssa.Call, callee *ssa.Function, name string) {
 	args := ins.Common().Args
 	rt := ins.Type()
+	vc.siteAsserts(st, reach, ins, fmt.Sprintf("%s#%d", name, vc.siteOrd[ins]))
 	u64 := BigLit(pow2_64)
 	switch name {
 	case "strings.HasPrefix":
@@ -382,23 +413,22 @@ func (vc *FuncVC) execLibrary(st *State, reach Term, ins *ssa.Call, callee *ssa.
 		return
 	case "strconv.ParseInt":
 		// base 10, a constant bit size: succeeds exactly on a numeral (optional sign, digits) whose value fits, and returns it
-		if bc, ok := args[1].(*ssa.Const); ok && bc.Value != nil && bc.Int64() == 10 {
-			if sc, ok := args[2].(*ssa.Const); ok && sc.Value != nil && sc.Int64() >= 8 && sc.Int64() <= 64 {
-				vc.numeralTheory()
-				code := vc.scalar(args[0])
-				v := vc.fresh("parsed", SInt)
-				er := vc.fresh("parseerr", SInt)
-				lim := pow2big(int(sc.Int64() - 1))
-				isnum := Eq(app(SInt, "uf_isnum_1", code), IntLit(1))
-				nv := app(SInt, "uf_numval_1", code)
-				okc := And(isnum, Le(Neg(BigLit(lim)), nv), Lt(nv, BigLit(lim)))
-				vc.assume(Eq(Eq(er, IntLit(0)), okc))
-				vc.assume(Implies(okc, Eq(v, nv)))
-				vc.assume(And(Le(Neg(BigLit(pow2big(63))), v), Lt(v, BigLit(pow2big(63)))))
-				vc.vals[ins] = &Val{Kind: vTuple, Elems: []*Val{{T: v, GoType: types.Typ[types.Int64]}, {T: er}}, GoType: rt}
-				vc.libHavoc(name)
-				return
-			}
+		if sc, ok := args[2].(*ssa.Const); ok && sc.Value != nil && sc.Int64() >= 8 && sc.Int64() <= 64 {
+			vc.numeralTheory()
+			code, base := vc.scalar(args[0]), vc.scalar(args[1])
+			v := vc.fresh("parsed", SInt)
+			er := vc.fresh("parseerr", SInt)
+			lim := pow2big(int(sc.Int64() - 1))
+			isnum := Eq(app(SInt, "uf_isnum_1", code), IntLit(1))
+			nv := app(SInt, "uf_numval_1", code)
+			okc := And(isnum, Le(Neg(BigLit(lim)), nv), Lt(nv, BigLit(lim)))
+			b10 := Eq(base, IntLit(10))
+			vc.assume(Implies(b10, Eq(Eq(er, IntLit(0)), okc)))
+			vc.assume(Implies(And(b10, okc), Eq(v, nv)))
+			vc.assume(And(Le(Neg(BigLit(pow2big(63))), v), Lt(v, BigLit(pow2big(63)))))
+			vc.vals[ins] = &Val{Kind: vTuple, Elems: []*Val{{T: v, GoType: types.Typ[types.Int64]}, {T: er}}, GoType: rt}
+			vc.libHavoc(name)
+			return
 		}
 	case "strings.Index", "strings.IndexRune", "strings.LastIndexByte":
 		// -1, or a position inside the string
@@ -496,6 +526,16 @@ func (vc *FuncVC) applyContract(st *State, reach Term, ins *ssa.Call, callee *ss
 		vc.vals[ins] = vc.freshVal("call", rt)
 		return
 	}
+	// the callee's ghost variables: its clauses hold for all their values, so any instantiation is sound - the caller's
+	// ghosts of the same name where it has them (a wrapper passes its own ghost text description on), otherwise arbitrary
+	for _, gp := range fc.Ghosts {
+		if v, ok := vc.params[gp.Name]; ok {
+			vars[gp.Name] = v
+			continue
+		}
+		ty := (&Env{g: vc.Gen}).parseType(gp.Type)
+		vars[gp.Name] = SVal{T: vc.fresh("ghost_"+gp.Name, ty.sort()), Ty: ty}
+	}
 	var nonNilGoals []Term
 	for i, a := range common.Args {
 		av := vc.val(a)
@@ -510,17 +550,7 @@ func (vc *FuncVC) applyContract(st *State, reach Term, ins *ssa.Call, callee *ss
 		}
 	}
 	// ghost assertions placed before this call site
-	for i, a := range vc.fc.Asserts[site] {
-		env := vc.env(st, vc.localVars())
-		t := env.boolean(a.E)
-		label := a.Name
-		if label == "" {
-			label = fmt.Sprintf("%d", i+1)
-		}
-		vc.oblige("R", fmt.Sprintf("assert/%s/%s", site, label), reach, t, clauseTags(a, vc.propTags()), ins.Pos(), a.Src)
-		vc.assume(Implies(reach, t))
-		vc.assertsSeen[site] = true
-	}
+	vc.siteAsserts(st, reach, ins, site)
 	pre := st.clone()
 	envPre := &Env{g: vc.Gen, cur: pre, old: pre, vars: vars}
 	// S: nil arguments
